@@ -6,7 +6,7 @@ sys.path.insert(0, os.path.dirname(os.path.abspath(__file__)))
 import seeded
 sys.path.insert(0, seeded.VERIF)
 d, prop, rel, old, new = sys.argv[1:6]
-t, root = seeded.scratch(os.path.join(d, "patch.diff"))
+t, root = seeded.scratch(os.path.join(d, "patch.diff")) if d != "-" else seeded.scratch()
 try:
     fp = os.path.join(root, rel)
     src = open(fp).read()
